@@ -151,6 +151,7 @@ _m.update({
                                              "attr_of(arg_attributes, \\'c:identifier\\') == member.symbol')",
     'C13.emit.member.nick': "all_calls('tagcontext', 'attr_of(arg_attributes, \\'glib:nick\\') == member.nick')",
 })
+_m['balanced'] = 'wf(self) and len(self._tag_stack) == old(len(self._tag_stack))'
 contract(G + '_write_member', params={'self': 'GIRWriter', 'member': 'Member'},
          props=('C03', 'C13', 'C07'), requires=['wf(self)'], modifies=WRITER_MODS,
          raises={'Exception': 'True'}, ensures=_m)
@@ -392,3 +393,33 @@ def sibling_name(s):
 
 def int_of(s):
     return int(s)
+
+
+# ---- <enumeration> / <bitfield>: one <member> per member, in order -------------------------------------------------------
+contract(G + '_write_static_method', params={'self': 'GIRWriter', 'callable': 'Function'}, trusted=True, requires=['wf(self)'],
+         modifies=WRITER_MODS, raises={'ValueError': 'maybe', 'AssertionError': 'maybe'},
+         ensures={'balanced': 'wf(self) and len(self._tag_stack) == old(len(self._tag_stack))'},
+         note='function element; the function writer (_write_function_common) is under contract separately')
+for _fn, _tag, _par in (('_write_enum', 'enumeration', 'enum'), ('_write_bitfield', 'bitfield', 'bitfield')):
+    _e = dict(generic('C03.emit.%s' % _tag, _par))
+    _e.update({
+        'C13.emit.%s.element_name_ctype' % _tag:
+            "all_calls('tagcontext', 'arg_tag_name == \\'%s\\' and attr_of(arg_attributes, \\'name\\') == %s.name and "
+            "attr_of(arg_attributes, \\'c:type\\') == %s.ctype')" % (_tag, _par, _par),
+        'C13.emit.%s.registered_type' % _tag:
+            "all_calls('tagcontext', 'attr_of(arg_attributes, \\'glib:get-type\\') == (%s.get_type if %s.get_type else None) and "
+            "attr_of(arg_attributes, \\'glib:type-name\\') == (%s.gtype_name if %s.get_type else None)')" % ((_par,) * 4),
+        'C13.emit.%s.one_member_element_per_member_in_order' % _tag:
+            "all_calls('_write_member', 'arg_member is %s.members[local_I1]')" % _par,
+    })
+    if _fn == '_write_enum':
+        _e['C13.emit.enumeration.error_domain'] = ("all_calls('tagcontext', 'attr_of(arg_attributes, \\'glib:error-domain\\') == "
+                                                   "(enum.error_domain if enum.error_domain else None)')")
+    contract(G + _fn, params={'self': 'GIRWriter', _par: 'Enum' if _fn == '_write_enum' else 'Bitfield'},
+             props=('C03', 'C13', 'C07'), requires=['wf(self)', '%s.members is not self._tag_stack' % _par,
+                                                    '%s.static_methods is not self._tag_stack' % _par],
+             modifies=WRITER_MODS,
+             raises={'ValueError': 'True', 'AssertionError': 'True', 'Exception': 'True'},
+             loops={1: {'index': 'I1', 'modifies': WRITER_MODS, 'invariant': ['wf(self)'], 'var_types': {'member': 'Member'}},
+                    2: {'index': 'I2', 'modifies': WRITER_MODS, 'invariant': ['wf(self)'], 'var_types': {'method': 'Function'}}},
+             ensures=_e)
